@@ -85,7 +85,30 @@ def correspond(ctx):
         if st.get('child_failures'):
             c['ok'] = False
             c['errors'].append('%d scenario processes died' % st['child_failures'])
-    return [c, _fault_stage(ctx)]
+    return [c, _pure_stage(ctx), _fault_stage(ctx)]
+
+
+def _pure_stage(ctx):
+    """Direct T-corr streams of two pure functions on the path: chainPvGreatThanRemote (tie-break order, with equal prove
+    values, equal / leading-zero hashes) and getRequestIdFromTransactions (header request id) against the Lean definitions
+    pvGreater / requestIdFrom. Needs verif hook H4c-c05; skipped with a note while the repository lacks it."""
+    hook = os.path.join(ctx.repo, 'src', 'core', 'verif_c05_export.go')
+    if not (os.path.exists(hook) and 'VerifC05RequestIds' in open(hook).read()):
+        return dict(name='pure-functions', ok=True, ops=0, mismatches=0, unmodelled=0, errors=[], violations=[], samples=[],
+                    distinct_nontrivial=0, stats=dict(skipped='repository under test lacks verif hook H4c-c05'))
+    c = vlib.correspond(ctx, 'c05', 'C05', ['mode=pure', 'n=%d' % (3000 if ctx.thorough() else 500), 'workers=1'], timeout=300)
+    c['name'] = 'pure-functions'
+    c['violations'] = []
+    st = c.get('stats')
+    if isinstance(st, dict):
+        st.pop('violations', None)
+        if st.get('child_failures'):
+            c['ok'] = False
+            c['errors'].append('pure-function stream process died')
+    if c.get('bad_op'):
+        c['ok'] = False
+        c['errors'].append('%d op lines rejected by the model driver' % c['bad_op'])
+    return c
 
 
 def _fault_stage(ctx):
